@@ -14,6 +14,7 @@ import (
 	"os"
 	"path/filepath"
 	"regexp"
+	"runtime"
 	"runtime/debug"
 	"sort"
 	"strconv"
@@ -31,7 +32,15 @@ import (
 func TestMain(m *testing.M) {
 	// every script run allocates a fresh VM (stack + frames, ~150 KB): fewer
 	// collections, same results
-	debug.SetGCPercent(800)
+	if g := ev.EnvInt("C19_GOGC", 400); g > 0 {
+		debug.SetGCPercent(g)
+	}
+	// every test here is single-threaded and the driver runs ~14 shard
+	// processes side by side: two Ps each (test + concurrent GC) instead of
+	// one per core keeps them from fighting over the machine
+	if os.Getenv("GOMAXPROCS") == "" {
+		runtime.GOMAXPROCS(2)
+	}
 	// A local zone with DST, so that to_local / date-without-location /
 	// unix / time(int) are distinguishable from their UTC counterparts. Both
 	// the module and the reference read time.Local.
